@@ -246,6 +246,38 @@ func Concurrently(fns ...func()) int {
 	return 0
 }
 
+// MathEqual compares two integers given as 64-bit patterns plus signedness (int64(x) if signed, else uint64(x)) as
+// mathematical values.
+func MathEqual(a uint64, aSigned bool, b uint64, bSigned bool) bool {
+	toBig := func(v uint64, s bool) *big.Int {
+		if s {
+			return big.NewInt(int64(v))
+		}
+		return new(big.Int).SetUint64(v)
+	}
+	return toBig(a, aSigned).Cmp(toBig(b, bSigned)) == 0
+}
+
+// BigEqual: x == the integer given as a 64-bit pattern plus signedness.
+func BigEqual(x *big.Int, v uint64, signed bool) bool {
+	if signed {
+		return x.Cmp(big.NewInt(int64(v))) == 0
+	}
+	return x.Cmp(new(big.Int).SetUint64(v)) == 0
+}
+
+// BigInt returns an arbitrary integer with |v| < 2^128.
+func BigInt(name string) *big.Int {
+	hi, lo, neg := Uint64(name+".hi"), Uint64(name+".lo"), Bool(name+".neg")
+	v := new(big.Int).SetUint64(hi)
+	v.Lsh(v, 64)
+	v.Or(v, new(big.Int).SetUint64(lo))
+	if neg {
+		v.Neg(v)
+	}
+	return v
+}
+
 // ExportPC hands the current path condition to the check's post-processing under the given name (engine only).
 func ExportPC(name string) {}
 
